@@ -9,6 +9,7 @@ import (
 	"fmt"
 	"os"
 	"os/exec"
+	"reflect"
 	"strings"
 	"sync"
 
@@ -203,6 +204,14 @@ func runTenant(spec *TenantSpec, yield func()) (res *tenantResult) {
 		}
 		m := astits.NewMuxer(context.Background(), &buf, astits.MuxerOptTablesRetransmitPeriod(period))
 		pids := map[int]uint16{}
+		var descGuards []*guarded
+		checkDesc := func(i int) {
+			for _, g := range descGuards {
+				if !g.intact() && res.payload == "" {
+					res.payload = fmt.Sprintf("by call %d the Muxer had modified a byte slice of a caller-owned descriptor (or the bytes around it)", i)
+				}
+			}
+		}
 		for i := range spec.Ops {
 			op := &spec.Ops[i]
 			if yield != nil {
@@ -214,6 +223,8 @@ func runTenant(spec *TenantSpec, yield func()) (res *tenantResult) {
 				for _, d := range op.Descs {
 					es.ElementaryStreamDescriptors = append(es.ElementaryStreamDescriptors, d.ToAstits())
 				}
+				// descriptor byte slices stay owned by the caller for the life of the Muxer
+				descGuards = append(descGuards, guardAllBytes(&es)...)
 				err := m.AddElementaryStream(es)
 				pids[i] = op.PID
 				res.keys = append(res.keys, "add:"+errClass(err))
@@ -224,6 +235,7 @@ func runTenant(spec *TenantSpec, yield func()) (res *tenantResult) {
 				n, err := m.WriteTables()
 				res.keys = append(res.keys, fmt.Sprintf("tables:%d:%s", n, errClass(err)))
 				res.live = append(res.live, nil)
+				checkDesc(i)
 			case "data":
 				spec0 := PESSpec{}
 				if op.PES != nil {
@@ -250,6 +262,7 @@ func runTenant(spec *TenantSpec, yield func()) (res *tenantResult) {
 						res.payload = fmt.Sprintf("WriteData call %d modified a byte slice of the caller's header / adaptation field (or the bytes around it)", i)
 					}
 				}
+				checkDesc(i)
 			case "packet":
 				pk := op.Pkt.ToAstits()
 				frame, payload := guardedPayload(op.Pkt.Tag, op.Pkt.PayloadLen)
@@ -676,4 +689,43 @@ func (g *guarded) intact() bool {
 		}
 	}
 	return bytes.Equal(g.frame[guardLen:guardLen+g.n], g.content)
+}
+
+// guardAllBytes re-homes every non-empty byte slice reachable from v (through pointers, structs
+// and slices) into a guarded frame of its own and returns the guards.
+func guardAllBytes(v any) []*guarded {
+	var gs []*guarded
+	var walk func(rv reflect.Value, depth int)
+	walk = func(rv reflect.Value, depth int) {
+		if depth > 12 || !rv.IsValid() {
+			return
+		}
+		switch rv.Kind() {
+		case reflect.Ptr, reflect.Interface:
+			if !rv.IsNil() {
+				walk(rv.Elem(), depth+1)
+			}
+		case reflect.Struct:
+			for i := 0; i < rv.NumField(); i++ {
+				if rv.Type().Field(i).PkgPath == "" {
+					walk(rv.Field(i), depth+1)
+				}
+			}
+		case reflect.Slice:
+			if rv.Type().Elem().Kind() == reflect.Uint8 {
+				if rv.Len() > 0 && rv.CanSet() {
+					b := rv.Bytes()
+					g := guardSlice(&b)
+					rv.SetBytes(b)
+					gs = append(gs, g)
+				}
+				return
+			}
+			for i := 0; i < rv.Len(); i++ {
+				walk(rv.Index(i), depth+1)
+			}
+		}
+	}
+	walk(reflect.ValueOf(v), 0)
+	return gs
 }
